@@ -89,6 +89,8 @@ impl IssuanceRequest { pub fn unpack(self) -> (ResourceClassName, RequestResourc
         U.fn(CH, 'ChildDetails', 'issued', external_body=True),
         # verified in unit c03_child_revoke; here it names the fact
         U.fn(CH, 'ChildDetails', 'is_issued', external_body=True, ensures=[('names', 'r == key_in_use(*self, *ki)')]),
+        # verified in unit c05_allres (it looks at the keys of THIS child only); declared so that code calling it is decided
+        U.fn(CH, 'ChildDetails', 'verify_key_allowed', external_body=True),
     ])
     U.impl('impl CertAuth', [
         U.fn(CA, 'CertAuth', 'get_child', requires=[('km', km)], ensures=[
